@@ -44,7 +44,7 @@ def run(ctx, report):
         'every printed mnemonic x operand-dictionary form the decoder can produce (forms from the statically expanded opcode table, mandatory-prefix '
         'suffix scheme and special renames applied). D1/D1b: mnemo_to_att reaches a return for every form (no final "Mnemonic unknown", no unbound size). '
         'D2: mnemo_from_att applied to the AT&T mnemonic returns the original mnemonic (unique decodability of name+suffix under the dispatch order). '
-        'D3: every suffix->size table is injective.')
+        'D3: every suffix->size table is injective. D5: the AT&T operand grammar, which reads back what the AT&T printer wrote, keeps both coefficients when base and index are the same register.')
     report.not_decided = ('operand order reversal and memory-operand layout for concrete operands, the fsub/fdiv reversal on parsed operands, acceptance by GNU as '
                           '(no assembler in the sandbox; an external tool\'s grammar is not a property of this source).')
     R1 = report.rule('C09.D1', 'every decodable mnemonic/operand-size form has an AT&T mnemonic', floor=700)
@@ -141,8 +141,13 @@ def run(ctx, report):
             R4.violation(inst, 'att-name:%s:%s' % (a, i), 'AT&T mnemonic %r is mapped to %r; GNU as defines it as %r' % (a, i, refnames[a]),
                          where(arch, arch.assigns['att_mnemo_table'][-1]))
 
+    R5 = report.rule('C09.D5', 'the AT&T operand grammar accumulates register coefficients (base == index)', floor=2)
+    from .c02 import accumulate_rule
+    accumulate_rule(R5, ctx.mod('ia32_att'), ctx.mod('parse_ad'))
+
 
 MUTANTS = [
+    ('deref3-overwrite', 'miasmx/arch/ia32_att.py', "    t[0][reg] = t[6] + t[0].get(reg, 0)", "    t[0][reg] = t[6]", 'C09.D5'),
     ('no-lea', 'miasmx/arch/ia32_arch.py', "        'lea', 'mov', 'xchg', 'push', 'pop',", "        'mov', 'xchg', 'push', 'pop',", 'C09.D1'),
     ('ptr-w-u32', 'miasmx/arch/ia32_arch.py', "            'w': x86_afs.u16,\n            'l': x86_afs.u32, },\n        'lea',", "            'w': x86_afs.u32,\n            'l': x86_afs.u32, },\n        'lea',", 'C09.D'),
     ('corr-swap', 'miasmx/arch/ia32_arch.py', "        'cwtl': 'cwde',\n        'cwtd': 'cwd',", "        'cwtl': 'cwd',\n        'cwtd': 'cwde',", 'C09.D4'),
